@@ -14,7 +14,7 @@ META = {
         "over valid, out-of-range and non-numeric arguments, raises ValueError for max_threads < 1 / non-numeric and stores "
         "int(max_threads) and min_threads clamped into [0, max]; C10.3 in enqueue the test `pending > threads` - after the "
         "put and the pending increment, inside the lock - guards __start_thread(); C10.4 start(), abstractly evaluated over "
-        "queue sizes and bounds, issues clamp(qsize, min, max) __start_thread() calls; C10.5 (snapshot rule) every decision "
+        "queue sizes and bounds, returns normally and issues at least clamp(qsize, min, max) __start_thread() calls (the bound itself is __start_thread's, C10.1); C10.5 (snapshot rule) every decision "
         "that creates or retires a worker is taken under the pool lock on inputs read under that lock, all of whose writers "
         "hold it; C10.6 no blocking primitive is called while the pool lock is held; C10.7 the only non-stop retirement is "
         "guarded by `threads > min`, and every exit of the worker (normal, retirement, sentinel, exceptional) decrements the "
@@ -241,11 +241,17 @@ def check(ck):
                 res = ev.run(fstart, {}, mk)
                 want = max(mn, min(qs, mx))
                 n4 += 1
-                ck.require(len(res) == 1 and count[0] == want, "C10.4", "%s: qsize=%d min=%d max=%d" % (q.fn(fstart), qs, mn, mx),
+                # (a lower bound: __start_thread itself refuses to exceed max_threads - C10.1 -, so asking it more often than needed
+                # only creates idle workers within the bound; asking less often leaves a waiting task or the minimum unserved)
+                raised = [o for (_d, o) in res if o[0] == "raise"]
+                ck.require(not raised, "C10.4", "%s: qsize=%d min=%d max=%d returns" % (q.fn(fstart), qs, mn, mx), "start() returns normally",
+                           "start() with %d queued tasks, min=%d, max=%d raises %s" % (qs, mn, mx, raised[0][1] if raised else ""),
+                           q.loc(fstart, fstart.node))
+                ck.require(len(res) == 1 and count[0] >= want, "C10.4", "%s: qsize=%d min=%d max=%d" % (q.fn(fstart), qs, mn, mx),
                            "%d __start_thread() calls" % count[0],
-                           "start() with %d queued tasks, min=%d, max=%d issues %d __start_thread() calls; clamp(qsize, min, max) = %d are "
-                           "required" % (qs, mn, mx, count[0], want), q.loc(fstart, fstart.node))
-    ck.floor("C10.4", 20)
+                           "start() with %d queued tasks, min=%d, max=%d issues %d __start_thread() calls; at least clamp(qsize, min, max) = %d "
+                           "are required" % (qs, mn, mx, count[0], want), q.loc(fstart, fstart.node))
+    ck.floor("C10.4", 40)
 
     # ---- C10.5 snapshot rule ---------------------------------------------------------------------------------------
     STATE = {"queue size": lambda c: dump(c.func) in ("self._queue.qsize", "self._queue.empty", "self._queue.full"),
@@ -472,6 +478,38 @@ def check(ck):
                            "idle count of the retirement test or the growth test is evaluated on a wrong number)"
                            % (dump(st), ctr, {"__nb_threads": "live workers", "__nb_active_threads": "executing tasks", "__nb_pending_task": "waiting tasks"}[ctr]),
                            q.loc(fi, st))
+    # the count of executing tasks: +1 before the execution of a task that was taken, -1 in the finally of that execution, nothing else
+    # (`threads - active` is the idle count of the retirement test: a count that drifts upwards keeps every worker for ever, one
+    # that drifts downwards retires workers while tasks wait)
+    act = [(fi_, st) for fi_ in ci.methods.values() if fi_.name != "__init__" for st in ast.walk(fi_.node)
+           if isinstance(st, (ast.AugAssign, ast.Assign)) and any(dump(t) == "self.__nb_active_threads" for t in (st.targets if isinstance(st, ast.Assign) else [st.target]))]
+    tries_x = [t for t in ast.walk(frun.node) if isinstance(t, ast.Try) and
+               any(isinstance(c, ast.Call) and call_name(c) == "execute" for b in t.body for c in ast.walk(b))]
+    # (the function-level try - whose finally unregisters the thread - is not one of them: it encloses the whole loop)
+    loops_x = [l for l in ast.walk(frun.node) if isinstance(l, (ast.While, ast.For))]
+    tries_x = [t for t in tries_x if any(any(x is t for b in l.body for x in ast.walk(b)) for l in loops_x)]
+    if not tries_x:
+        raise AnalysisError("anchor vanished: a try around future.execute inside the worker loop of ThreadPool.__run")
+    incs_a = [st for (fi_, st) in act if isinstance(st, ast.AugAssign) and isinstance(st.op, ast.Add)]
+    decs_a = [st for (fi_, st) in act if isinstance(st, ast.AugAssign) and isinstance(st.op, ast.Sub)]
+    others = [st for (fi_, st) in act if st not in incs_a and st not in decs_a] + [st for (fi_, st) in act if fi_.fq != frun.fq]
+    in_final = [st for st in decs_a if any(x is st for tx in tries_x for b in tx.finalbody for x in ast.walk(b))]
+    grun = cfg_of(frun)
+    drun = dominators(grun)
+    exec_nodes = [n for n in grun.live_nodes() for c in node_calls(n) if call_name(c) == "execute"]
+    inc_nodes = [n for n in grun.live_nodes() if n.kind == "stmt" and any(n.ast is st for st in incs_a)]
+    ck.require(len(incs_a) == 1 and len(inc_nodes) == 1 and bool(exec_nodes) and all(inc_nodes[0].id in drun[e.id] for e in exec_nodes) and
+               not any(x is incs_a[0] for tx in tries_x for b in tx.finalbody + [h_ for h in tx.handlers for h_ in h.body] for x in ast.walk(b)),
+               "C10.7b", "%s: executing-task count raised once before the execution" % q.fn(frun), "`+= 1` dominates future.execute",
+               "the count of executing tasks is not raised exactly once before a taken task is executed (%d increment(s)): the idle count "
+               "`threads - active` of the retirement test is wrong" % len(incs_a), q.loc(frun, incs_a[0] if incs_a else frun.node))
+    ck.require(len(decs_a) == 1 and len(in_final) == 1, "C10.7b", "%s: executing-task count lowered once when the execution ends" % q.fn(frun),
+               "`-= 1` in the finally of the try around future.execute",
+               "the count of executing tasks is not lowered exactly once in the finally of the execution (%d decrement(s), %d of them there): "
+               "the idle count `threads - active` of the retirement test drifts" % (len(decs_a), len(in_final)),
+               q.loc(frun, decs_a[0] if decs_a else frun.node))
+    ck.require(not others, "C10.7b", "ThreadPool: no other update of the executing-task count", "only the +1 / -1 pair of __run",
+               "the executing-task count is also written by `%s`" % (dump(others[0])[:60] if others else ""), q.loc(frun, others[0] if others else frun.node))
     # every queued task is counted: in enqueue, the increment post-dominates the put on normal paths
     fenq = prog.func(TP, "ThreadPool.enqueue")
     genq = cfg_of(fenq)
